@@ -240,6 +240,7 @@ func TestC14Rapid(t *testing.T) {
 			return jsonCloneEdits(canonJSON(&combined))
 		}
 		var prevReq []string
+		var usedOCI *oci.Spec
 		var prevOCI *oci.Spec
 		var prevResult string
 		var prevErr bool
@@ -284,7 +285,22 @@ func TestC14Rapid(t *testing.T) {
 				}
 				changedSinceInject = false
 				prevReq, prevOCI, prevResult, prevErr = req, before, gen.OCIImage(o), err != nil
+				usedOCI = o
 				last = fmt.Sprintf("inject %v (%s)", req, outcome)
+			},
+			"injectIntoTheSameOCISpecAgain": func(t *rapid.T) {
+				// a second round of injection for the same container: the OCI spec object already carries what an
+				// earlier injection put there (sections of it may be shared with the cache if the library hands out pointers)
+				if usedOCI == nil {
+					t.Skip("no OCI spec injected into yet")
+				}
+				perm := rapid.Permutation(allNames).Draw(t, "order")
+				req := perm[:rapid.IntRange(1, len(perm)).Draw(t, "nReq")]
+				_, _ = cache.InjectDevices(usedOCI, req...)
+				if rapid.Bool().Draw(t, "alsoApplyEdits") {
+					_ = cache.GetDevice(req[0]).ApplyEdits(usedOCI)
+				}
+				last = fmt.Sprintf("injectIntoTheSameOCISpecAgain %v", req)
 			},
 			"deviceApplyEdits": func(t *rapid.T) {
 				q := rapid.SampledFrom(allNames).Draw(t, "device")
